@@ -191,7 +191,8 @@ Bed12_Decl(feature, blocks, r) ==
           /\ (ex[Len(ex)].start - feature.start) + (ex[Len(ex)].end - ex[Len(ex)].start + 1) = feature.end - (feature.start - 1)
 
 \* sequence: bases start..end (1-based inclusive), reverse-complemented on the minus strand
-Comp(c) == CASE c = 65 -> 84 [] c = 84 -> 65 [] c = 67 -> 71 [] c = 71 -> 67 [] c = 97 -> 116 [] c = 116 -> 97 [] c = 99 -> 103 [] c = 103 -> 99 [] OTHER -> c
+\* complement of the nucleotide codes incl. the IUPAC ambiguity codes (R<->Y, K<->M, D<->H, V<->B; W, S, N, X are their own complement), case kept
+Comp(c) == CASE c = 65 -> 84 [] c = 67 -> 71 [] c = 84 -> 65 [] c = 71 -> 67 [] c = 97 -> 116 [] c = 99 -> 103 [] c = 116 -> 97 [] c = 103 -> 99 [] c = 89 -> 82 [] c = 82 -> 89 [] c = 75 -> 77 [] c = 77 -> 75 [] c = 68 -> 72 [] c = 86 -> 66 [] c = 72 -> 68 [] c = 66 -> 86 [] c = 121 -> 114 [] c = 114 -> 121 [] c = 107 -> 109 [] c = 109 -> 107 [] c = 100 -> 104 [] c = 118 -> 98 [] c = 104 -> 100 [] c = 98 -> 118 [] OTHER -> c
 Reverse(s) == [i \in 1..Len(s) |-> s[Len(s) + 1 - i]]
 SeqOf(ref, start, end, strand, useStrand) ==
   LET sub == SubSeq(ref, start, end) IN
